@@ -742,7 +742,7 @@ def ident_cases(draw):
         if any(c not in font["tu"] for c in all_codes):
             classes.append("tu-miss")
     if src in ("ttf", "tu+ttf"):
-        fmt = 0 if rnd.random() < (0.6 if nbytes == 1 else 0.15) else 4
+        fmt = 0 if rnd.random() < (0.6 if nbytes == 1 else 0.15) else (2 if rnd.random() < 0.3 else 4)
         m = C.random_injective_map(rnd, fmt, all_codes)
         # platform 0 is Unicode whatever its encoding id (0 = 1.0, 1 = 1.1, 2 = ISO 10646, 3 = 2.0 BMP, 4 = 2.0 full)
         pid, eid = rnd.choice([(0, 3), (3, 1), (0, 4), (3, 1), (0, 0), (0, 1), (0, 2)])
